@@ -225,6 +225,121 @@ def _edep_ground_case(case, tier, seed):
     return res
 
 
+def _num(s):
+    """independent reader of a table number: uncertainty dropped, '<' limits and '*' estimates as the bare number, blank missing"""
+    s = s.strip().replace('<', '').replace('*', '')
+    if not s:
+        return None
+    return float(s.split('(')[0])
+
+
+def _table_sweep_case(case, tier, seed):
+    """ground sweep (concrete, exhaustive over rows; not a solver claim): every row of the neutron table and of the
+    imaginary table against the served values, public table and a fresh private table"""
+    import periodictable as pt
+    from periodictable import nsf, core, mass, density
+    import os
+    res = dict(paths=1, claims=0, discharged=0, queries=0, distinct=0, violations=[], inconclusive=[], samples=[], solver_s=0.0, complete=True)
+    T = core.PeriodicTable('vsym-c07sweep-%d-%d' % (os.getpid(), next(_CNT)))
+    try:
+        mass.init(T)
+        density.init(T)
+        nsf.init(T)
+    finally:
+        for k, v in list(core.PRIVATE_TABLES.items()):
+            if v is T:
+                del core.PRIVATE_TABLES[k]
+
+    def bad(name, got, want):
+        if len(res['violations']) < 5:
+            res['violations'].append(dict(case=case.name, claim=name, values={}, observed=[repr(got), repr(want)], how='concrete table sweep'))
+    rows = [l.split(',') for l in nsf.nsftable.split('\n')]
+    in_table = set()
+    for tab in (pt.elements, T):
+        tag = 'public' if tab is pt.elements else 'private'
+        single = {}
+        for c in rows:
+            parts = c[0].split('-')
+            if len(parts) == 3:
+                single.setdefault(int(parts[0]), []).append(int(parts[2]))
+        has_el_row = set(int(c[0].split('-')[0]) for c in rows if len(c[0].split('-')) == 2)
+        for c in rows:
+            parts = c[0].split('-')
+            Z = int(parts[0])
+            el = tab[Z]
+            atom = el if len(parts) == 2 else el[int(parts[2])]
+            in_table.add((Z, 0 if len(parts) == 2 else int(parts[2])))
+            n = atom.neutron
+            want = dict(b_c=_num(c[3]), bp=_num(c[4]), bm=_num(c[5]), coherent=_num(c[7]), incoherent=_num(c[8]), total=_num(c[9]), absorption=_num(c[10]))
+            if c[0] == '54-Xe':
+                want['total'] = want['coherent'] + want['incoherent']       # documented gap fill
+            if c[0] == '63-Eu-151':
+                want['b_c'] = n.b_c                                          # documented gap fill
+            for k, w in want.items():
+                res['claims'] += 1
+                g = getattr(n, k)
+                if (g is None and w is None) or (g is not None and w is not None and abs(g - w) <= 1e-12 * max(1.0, abs(w))):
+                    res['discharged'] += 1
+                else:
+                    bad('%s.%s|%s' % (c[0], k, tag), g, w)
+            res['claims'] += 2
+            if n.is_energy_dependent == (c[6] == 'E'):
+                res['discharged'] += 1
+            else:
+                bad('%s.is_energy_dependent|%s' % (c[0], tag), n.is_energy_dependent, c[6])
+            bc = n.b_c_complex
+            wre = None if c[0] == '63-Eu-151' else want['b_c']     # blank b_c: the complex value keeps a NaN real part
+            ok = (wre is None or abs(bc.real - wre) <= 1e-12 * max(1, abs(wre))) and abs(bc.imag + want['absorption'] / (2000 * 1.798)) <= 1e-12 * max(1, want['absorption'])
+            if ok:
+                res['discharged'] += 1
+            else:
+                bad('%s.b_c_complex|%s' % (c[0], tag), bc, (wre, -want['absorption'] / (2000 * 1.798)))
+            if len(parts) == 3:
+                res['claims'] += 2
+                if atom.nuclear_spin == c[2]:
+                    res['discharged'] += 1
+                else:
+                    bad('%s.nuclear_spin|%s' % (c[0], tag), atom.nuclear_spin, c[2])
+                wab = 0 if ' ' in c[1] else (_num(c[1]) if c[1].strip() else None)
+                if (n.abundance is None and wab is None) or (n.abundance is not None and wab is not None and abs(n.abundance - wab) <= 1e-12 * max(1, abs(wab))):
+                    res['discharged'] += 1
+                else:
+                    bad('%s.abundance|%s' % (c[0], tag), n.abundance, wab)
+        # single-isotope elements report their isotope's record
+        for Z, isos in single.items():
+            if Z not in has_el_row and Z != 0:
+                res['claims'] += 1
+                if tab[Z].neutron is tab[Z][isos[0]].neutron:
+                    res['discharged'] += 1
+                else:
+                    bad('element_shares_first_isotope_record[%d]|%s' % (Z, tag), 'distinct records', 'same record')
+        # imaginary table
+        for line in nsf.nsftableI.split('\n'):
+            c = line.split(',')
+            parts = c[0].split('-')
+            el = tab[int(parts[0])]
+            atom = el if len(parts) == 2 else el[int(parts[2])]
+            for k, col in (('b_c_i', 1), ('bp_i', 2), ('bm_i', 3)):
+                res['claims'] += 1
+                g, w = getattr(atom.neutron, k), _num(c[col])
+                if (g is None and w is None) or (g is not None and w is not None and abs(g - w) <= 1e-12):
+                    res['discharged'] += 1
+                else:
+                    bad('%s.%s|%s' % (c[0], k, tag), g, w)
+        # atoms not in the table report that no SLD is available
+        for el in tab:
+            for a in el.isotopes:
+                if (el.number, a) not in in_table:
+                    res['claims'] += 1
+                    if not el[a].neutron.has_sld():
+                        res['discharged'] += 1
+                    else:
+                        bad('no_row_no_sld[%s-%d]|%s' % (el.symbol, a, tag), 'has_sld', 'no sld')
+    res['queries'] = res['distinct'] = res['claims']
+    res['samples'] = [dict(facts_checked=res['claims'], note='ground sweep, exhaustive over the embedded rows; not a solver claim')]
+    return res
+
+
 class _E:
     pass
 
@@ -290,5 +405,6 @@ def cases(tier):
         out.append(Case('energy_table[%s%s]' % (el, '' if iso is None else '-%d' % iso), _edep_nodes_case(el, iso), max_paths=4096,
                         timeout_ms=20000, nsamples=2))
     out.append(Case('energy_table_nodes_ground', None, custom=_edep_ground_case))
+    out.append(Case('embedded_table_ground_sweep', None, custom=_table_sweep_case))
     out.append(Case('notation_crosshair', None, custom=_notation_crosshair, budget_s=700 if th else 230))
     return out
